@@ -20,7 +20,7 @@ TYPES = {
     "MemWordWriterSlice<W, B>": ("impls::mem_word_writer::MemWordWriterSlice<W, B>", "slice", "impls::mem_word_writer::MemWordWriterSlice"),
     "MemWordWriterVec<W, B>": ("impls::mem_word_writer::MemWordWriterVec<W, B>", "vec", "impls::mem_word_writer::MemWordWriterVec"),
 }
-WORDS = [0xA1, 0xB2, 0xC3]
+WORDS = [0xA1, 0xB2, 0xC3, 0xD4, 0xE5, 0xF6]
 NEWWORD = 0x5E
 
 
@@ -204,6 +204,7 @@ def run(chk, F, tier):
     chk.rule("K.set_word_pos", floor=4, doc="set_word_pos interpreted on every (cursor, argument) cell pair: accepted positions (<= length; any for the zero-extended reader) become the cursor; a rejected one reports an error and leaves the cursor")
     chk.rule("K.len", floor=2, doc="len() interpreted on storages of 0..=3 words: the number of words")
     hs = handlers()
+    NMAX = 4 if tier != "thorough" else 7          # storages of 0..=3 words (quick) / 0..=6 words (thorough)
     for tname, (sty, kind, adt) in sorted(TYPES.items()):
         def method(tr, nm):
             l = [b for b in F.bodies if b["kind"] == "AssocFn" and b.get("impl_self") == sty and (b.get("impl_trait_def") or "") == tr
@@ -241,7 +242,7 @@ def run(chk, F, tier):
         if b is None:
             probs.append("not found")
         else:
-            for n in range(0, 4):
+            for n in range(0, NMAX):
                 for cell in cursor_cells(n):
                     what = "len %d, cursor %s" % (n, list(cell) if cell[0] != cell[1] else cell[0])
                     res = attempt(probs, what, lambda: interp(b, n, cell))
@@ -273,7 +274,7 @@ def run(chk, F, tier):
             if b is None:
                 probs.append("not found")
             else:
-                for n in range(0, 4):
+                for n in range(0, NMAX):
                     for cell in cursor_cells(n)[:-1] + ([] if kind == "vec" else [cursor_cells(n)[-1]]):
                         what = "len %d, cursor %s" % (n, list(cell) if cell[0] != cell[1] else cell[0])
                         res = attempt(probs, what, lambda: interp(b, n, cell, lambda it: [AI("u64", NEWWORD, NEWWORD)]))
@@ -317,7 +318,7 @@ def run(chk, F, tier):
         if b is None:
             probs.append("not found")
         else:
-            for n in range(0, 4):
+            for n in range(0, NMAX):
                 for c0 in (0, n, n + 2):
                     for cell in [(x, x) for x in range(0, n + 3)] + [(n + 3, UMAX)]:
                         what = "len %d, cursor %d, position %s" % (n, c0, list(cell) if cell[0] != cell[1] else cell[0])
@@ -353,7 +354,7 @@ def run(chk, F, tier):
         if len(bl) != 1:
             probs.append("not found")
         else:
-            for n in range(0, 4):
+            for n in range(0, NMAX):
                 try:
                     it = ivl.Interp(F, 0, 0, hs)
                     sref, h, arr, ci = setup(F, it, adt, kind, n, AI("usize", 1, 1))
